@@ -1882,6 +1882,20 @@ class Interp:
         if last in ("map", "unwrap", "expect") and args and callee in ("std::option::Option::map", "std::result::Result::map", "std::option::Option::unwrap", "std::option::Option::expect", "std::result::Result::unwrap", "std::result::Result::expect"):
             flat_ = flatten_phi(args[0])
             if flat_ and all(isinstance(core(x), StructV) and core(x).variant in ("Ok", "Err", "Some", "None") for _, x in flat_):
+                if last == "map" and len(args) == 2 and isinstance(core(args[1]), Def) and "Ctor" in (core(args[1]).dk or "") and hasattr(core(args[1]), "ctor_of"):
+                    # `.map(Variant)` on known alternatives: the constructor applied to each success payload
+                    ct_ = core(args[1])
+                    alts_ = []
+                    for c_, x in flat_:
+                        x0 = core(x)
+                        if x0.variant in ("Ok", "Some"):
+                            pay_ = x0.fields.get("0", UNIT)
+                            sv_ = StructV(None, ct_.ctor_of, {"0": pay_}, node=n) if "Variant" in ct_.dk else StructV(ct_.ctor_of, None, {"0": pay_}, node=n)
+                            self.structs.append((sv_, n, self.cur_fn(), And(self.cur_cond(), c_)))
+                            alts_.append((c_, StructV(x0.adt, x0.variant, {"0": sv_})))
+                        else:
+                            alts_.append((c_, x))
+                    return alts_[0][1] if len(alts_) == 1 else PhiV(alts_)
                 if last == "map" and len(args) == 2 and isinstance(core(args[1]), ClosureV):
                     alts_ = []
                     for c_, x in flat_:
